@@ -50,6 +50,7 @@ def run(ctx):
     rule_lsuffix(ctx, F)
     rule_dispatch(ctx, F)
     rule_flags(ctx, F)
+    rule_hdr12(ctx, F)
 
 
 SEGS = [("new::base::name::absolute::parse_segment", "size", +1), ("new::base::name::reversed::parse_segment", "offset", -1)]
@@ -995,3 +996,67 @@ def rule_flags(ctx, F):
                 gok = sh == low
         ctx.ob(R, g, "%s() reads bits %d..%d" % (name, low, low + width - 1), gok,
                "HeaderFlags::%s does not read (word >> %d) & %#x" % (name, low, (1 << width) - 1))
+
+
+def _lin_ptr(t):
+    """(kind, constant) of `<pointer word> + constant` or `<start parameter> + constant`; kind in {'ptr', 'start'}"""
+    t = deep_strip(t)
+    if t[0] == "cast":
+        return _lin_ptr(t[2])
+    if t[0] == "arg":
+        return ("start", 0)
+    if t[0] == "call" and re.search(r"from_be_bytes$", t[1] or ""):
+        return ("ptr", 0)
+    if t[0] == "call" and re.search(r"::(from|into)$", t[1] or "") and t[3]:
+        return _lin_ptr(t[3][0])
+    if t[0] == "field" or t[0] == "downcast":
+        return _lin_ptr(t[1])
+    if t[0] == "call" and re.search(r"Try::branch$|ok_or$|ok_or_else$", t[1] or "") and t[3]:
+        return _lin_ptr(t[3][0])
+    if t[0] == "call" and re.search(r"::checked_sub$", t[1] or "") and len(t[3]) == 2:
+        a, k = _lin_ptr(t[3][0]), const_value(deep_strip(t[3][1]))
+        return None if a is None or k is None else (a[0], a[1] - k)
+    if t[0] == "bin" and t[1].replace("WithOverflow", "").replace("Unchecked", "") in ("Add", "Sub", "BitAnd"):
+        op = t[1].replace("WithOverflow", "").replace("Unchecked", "")
+        a, k = _lin_ptr(t[2]), const_value(deep_strip(t[3]))
+        if a is None or k is None:
+            return None
+        if op == "BitAnd":
+            return (a[0], a[1] - 0xC000) if k == 0x3FFF and a[0] == "ptr" else None
+        return (a[0], a[1] + (k if op == "Add" else -k))
+    return None
+
+
+def rule_hdr12(ctx, F):
+    """A compression pointer counts from the start of the *message*; the new codec's parsers work on the contents
+    behind the 12-octet header.  Where `UnparsedName::split_message_bytes` tests a pointer against its position in the
+    contents, the two sides differ by exactly the tag 0xC000 plus those 12 octets -- as in its siblings NameBuf /
+    RevNameBuf (C19.ptr) -- otherwise it refuses valid pointers into the 12 octets before the name and accepts
+    pointers into the header."""
+    R = "C19.hdr12"
+    ctx.floor(R, 1)
+    b = F.one_body(r"UnparsedName as new::base::parse::SplitMessageBytes<'a>>::split_message_bytes$")
+    if not ctx.anchor(R, "<&UnparsedName as SplitMessageBytes>::split_message_bytes", b):
+        return
+    n = 0
+    for bi in sorted(b.reachable_blocks()):
+        t = b.blocks[bi]["t"]
+        if t["k"] != "switch" or t["ty"] != "bool":
+            continue
+        d = deep_strip(b.term_of_operand(t["d"]))
+        if d[0] != "bin" or d[1] not in ("Ge", "Gt", "Lt", "Le") or "from_be_bytes" not in show(d):
+            continue
+        l, r = _lin_ptr(d[2]), _lin_ptr(d[3])
+        n += 1
+        ok = False
+        got = None
+        if l and r and {l[0], r[0]} == {"ptr", "start"}:
+            p_, s_ = (l, r) if l[0] == "ptr" else (r, l)
+            got = s_[1] - p_[1]          # ptr - got  <cmp>  start
+            ok = got == 0xC000 + 12
+        ctx.ob(R, b, "pointer and position are compared in the same frame (tag and 12-octet header removed)", ok,
+               "split_message_bytes compares `pointer word - %s` with its own position in the message *contents*: a pointer is "
+               "relative to the whole message, so 0xC000 + 12 = 49164 has to come off -- as it is, a valid pointer to the 12 "
+               "octets in front of the name is refused and a pointer into the header accepted, unlike NameBuf / RevNameBuf and the "
+               "established codec" % ("?" if got is None else got), b.where(bi))
+    ctx.ob(R, b, "pointer test found", n >= 1, "no comparison of a compression pointer with the position found", nontrivial=False)
